@@ -18,7 +18,11 @@ func TestCount(t *testing.T) {
 		for _, st := range stages(th) {
 			t0 := time.Now()
 			var n int64
-			explore.Explore(st.b, func(x *explore.C) { _ = gen(x, st.p) }, func(x *explore.C) bool { n++; return n < 5000000 })
+			g := st.gen
+			if g == nil {
+				g = func(x *explore.C) Case { return gen(x, st.p) }
+			}
+			explore.Explore(st.b, func(x *explore.C) { _ = g(x) }, func(x *explore.C) bool { n++; return n < 5000000 })
 			t.Logf("thorough=%v %s: %d cases, gen %.1fs", th, st.sub, n, time.Since(t0).Seconds())
 		}
 	}
